@@ -104,8 +104,9 @@ class Check(PropCheck):
             'value-less class, upper-case spelling), cloned, copied, unpickled; every view read on a fresh element per prefix. '
             'A case is non-trivial when its history writes the class attribute at least twice through two different paths '
             'or starts from a non-empty class.')
-    assumptions = ['ASCII space is the only separator inside the operands of the reference semantics; tabs/newlines are '
-                   'exercised in the correspondence stream only (the model follows the code: they stay inside one name)',
+    assumptions = ['ASCII space is the only separator inside the operands of the reference semantics; the other white space of '
+                   'str.isspace() (tabs, newlines, \\x1c, U+0085, U+00A0, U+2003, U+3000) is exercised in the correspondence stream '
+                   'only (the model follows the code: str.strip() removes it at the ends of a value, inside it stays in one name)',
                    'the character-level re-parse of the start tag is done by the real parser on the library side and by '
                    'readBack (unescape of &quot;, bare name = no value) on the model side']
 
